@@ -93,6 +93,24 @@ def check_ir(ir):
     return None
 
 
+def required_replay(_name):
+    """The clause S1-S4 carry, on the real json_schema(): `required` == the non-Optional names in declaration order"""
+    import itertools
+    from collections import OrderedDict
+
+    import cdd.json_schema.emit
+
+    shapes = [("b_req", "int"), ("a_opt", "Optional[int]"), ("z_req", "str"), ("c_req", "bool"), ("y_opt", "Optional[str]")]
+    for n in (1, 2, 3, 5):
+        for combo in itertools.permutations(shapes, n):
+            ir = {"name": "Conf", "doc": "Summary.", "params": OrderedDict((k, {"typ": t, "doc": "the " + k}) for k, t in combo), "returns": None}
+            want = [k for k, t in combo if not t.startswith("Optional[")]
+            got = cdd.json_schema.emit.json_schema(copy.deepcopy(ir)).get("required")
+            if got != want:
+                return {"ir": json.loads(json.dumps(ir)), "what": "required is %r, the non-Optional parameters in declaration order are %r" % (got, want)}
+    return None
+
+
 def bounded(tier, seed):
     pool = domain.param_pool(TYPES, docs=["the {name}", "The {name} of it.", ""])
     gens = []
@@ -118,6 +136,7 @@ def main(tier, write_baseline=False):
     # the non-Optional parameter names in order, for parameter lists of any length
     common.lean_theorems(run, "C06", "C06.lean", ("required_is_filter", "required_iff_not_optional"))
     run.trusted_base.add("Lean 4.33 kernel (lean/C06.lean, no Mathlib): the fold lemma; that dict(map(f, xs)) is that fold rests on S1-S4 (rule engine) and on CPython evaluating map lazily in order")
+    refuted, rule_inputs = run.confirm_or_undecide(refuted, required_replay)
     if write_baseline:
         common.write_baseline("C06", [n for n, o in run.obligations.items() if o["status"] == "proved"])
     compare_baseline(run, set(run.obligations))
@@ -137,8 +156,9 @@ def main(tier, write_baseline=False):
             continue
         seen.add(o["name"])
         cand = next(iter(fails.values()), None)
-        run.violation(o["name"], "obligation refuted by %s on path %s" % (o["backend"], " ".join(o["trace"])),
-                      failing_input=({"ir": json.loads(json.dumps(cand[0], default=str)), "what": cand[1]} if cand else None), solver_output={"model": o["model"], "smt2": (o["smt2"] or "")[:5000]})
+        fi = rule_inputs.get(o["name"]) or ({"ir": json.loads(json.dumps(cand[0], default=str)), "what": cand[1]} if cand else None)
+        run.violation(o["name"], "obligation refuted by %s on path %s%s" % (o["backend"], " ".join(o["trace"]), (": " + "; ".join(o.get("notes") or [])[:300]) if o.get("notes") else ""),
+                      failing_input=fi, solver_output={"model": o["model"], "smt2": (o["smt2"] or "")[:5000]})
     for kind, (ir, what) in fails.items():
         run.violation("C06/bounded/%s" % kind, what, key={"kind": kind}, failing_input={"ir": json.loads(json.dumps(ir, default=str))})
     common.apply_controls(run, tier)
